@@ -7,3 +7,6 @@ pub(crate) use bucket_leap_array::*;
 pub(crate) use leap_array::*;
 pub(crate) use metric_bucket::*;
 pub(crate) use sliding_window_metric::*;
+
+#[cfg(flea1lt_sentinel_rust_verif)]
+pub use {bucket_leap_array::*, leap_array::*, metric_bucket::*, sliding_window_metric::*};
